@@ -11,7 +11,12 @@ Ties (every run):
 * file level: a skeleton of every generated C++/Java/ObjC/C++-CLI declaration (extracted by `ctok.py`) against
   the model's `apiSkel`.
 Specification on the implementation's observations: `printT (ref… t)` (the independently written reference
-mapping) against every real type string, and `fidelity` (op `c02.spec`) on every extracted skeleton.
+mapping) against every real type string, `fidelity` (op `c02.spec`) on every extracted skeleton, and the style
+specification `convertSpec` (op `c02.convertSpec`: prefix, capital letters exactly at the starts of the `_`-separated
+words for camelCase / PascalCase, every separator kept in place for the separator styles, letters preserved) on the real
+`convert` over an identifier stream with every character-class boundary (digit→letter, letter→digit, lower→upper, `_`
+runs, trailing `_`, one-letter and all-capitals words) and on every plainly converted name (type, field, method, item)
+of every extracted declaration, whose programs draw their identifiers from the same classes.
 """
 from __future__ import annotations
 
